@@ -159,12 +159,14 @@ func Reductions(g *Grammar, entry int) []Reduced {
 					})
 				}
 			case KClass:
-				small = append(small, func() {
-					apply(r, idx, func(e *Expr, set func(*Expr)) bool {
-						set(&Expr{K: KLit, Runes: []rune{e.Items[0].Lo}})
-						return !e.Neg
+				if len(e.Items) > 0 {
+					small = append(small, func() {
+						apply(r, idx, func(e *Expr, set func(*Expr)) bool {
+							set(&Expr{K: KLit, Runes: []rune{e.Items[0].Lo}})
+							return !e.Neg
+						})
 					})
-				})
+				}
 				if e.Neg {
 					small = append(small, func() {
 						apply(r, idx, func(e *Expr, set func(*Expr)) bool { e.Neg = false; return true })
